@@ -145,7 +145,22 @@ def temp_name_prog(src):
         if var is not None and var in fmt_args:
             named = len(lean_ops) - 1
     uses_part = "name_part" in fmt_args
-    return lean_ops, named, fm.group(1), uses_part, ("process::id()" in fm.group(2))
+    named_var = ops[named][0] if named is not None else None
+    if re.search(r"\{[^}]+\}", fm.group(1)) or "{{" in fm.group(1) or "}}" in fm.group(1):
+        raise ParseError("temp_file_name: format string uses a placeholder other than {}")
+    if fm.group(1).count("{}") != len(fmt_args):
+        raise ParseError("temp_file_name: placeholder / argument count mismatch")
+    arg_kinds = []
+    for a in fmt_args:
+        if a == "name_part":
+            arg_kinds.append("NameArg.part")
+        elif re.fullmatch(r"(std::)?process::id\(\)", a):
+            arg_kinds.append("NameArg.pid")
+        elif named_var is not None and a == named_var:
+            arg_kinds.append("NameArg.counter")
+        else:
+            arg_kinds.append("NameArg.other")
+    return lean_ops, named, fm.group(1), uses_part, ("process::id()" in fm.group(2)), arg_kinds
 
 
 def generate():
@@ -274,7 +289,8 @@ def generate():
         "/-- `skip_option` verifies that as many bytes were skipped as the length prefix announced -/\n"
         "def SKIP_OPTION_CHECKED : Bool := %s\n\n"
         "end Sds.Generated\n" % (munmap_factor, "true" if fail_test == "map_failed" else "false", "true" if skip_checked else "false"))
-    ops, named, fmt, uses_part, uses_pid = temp_name_prog(ser)
+    ops, named, fmt, uses_part, uses_pid, arg_kinds = temp_name_prog(ser)
+    fmt_chars = "[" + ", ".join("'%s'" % ("\\'" if c == "'" else "\\\\" if c == "\\" else c) for c in fmt) + "]"
     files["TempName.lean"] = (
         "-- GENERATED by tools/gen_lean.py from /repo/src/serialize.rs (temp_file_name) — do not edit.\n"
         "import Sds.Model.Atomic\n"
@@ -285,7 +301,10 @@ def generate():
         "def tempNameResultOp : Option Nat := " + ("some %d" % named if named is not None else "none") + "\n"
         "def tempNameFormat : String := \"" + fmt + "\"\n"
         "def tempNameUsesPart : Bool := " + ("true" if uses_part else "false") + "\n"
-        "def tempNameUsesPid : Bool := " + ("true" if uses_pid else "false") + "\n\n"
+        "def tempNameUsesPid : Bool := " + ("true" if uses_pid else "false") + "\n"
+        "/-- the format string as characters, and the kinds of its arguments in order -/\n"
+        "def tempNameFormatChars : List Char := " + fmt_chars + "\n"
+        "def tempNameArgs : List NameArg := [" + ", ".join(arg_kinds) + "]\n\n"
         "end Sds.Generated\n")
     return files
 
